@@ -842,3 +842,7 @@ impl<'source> Environment<'source> {
 }
 
 use crate::loader::LoaderStore as TemplateStore;
+
+#[cfg(kani)]
+#[path = "/verif/kani/environment.rs"]
+mod verif_kani;
